@@ -32,6 +32,11 @@ const (
 
 type procEv map[string]any
 
+// failReader is the rest of a request body whose connection has broken.
+type failReader struct{}
+
+func (failReader) Read([]byte) (int, error) { return 0, io.ErrUnexpectedEOF }
+
 // hook routing: the channel goroutine of the history in progress reports here
 var (
 	hookMu   sync.Mutex
@@ -148,11 +153,15 @@ type mpdStamp struct {
 }
 
 type fileEnt struct {
-	N int    `json:"n"`
-	H string `json:"h"`
+	N   int    `json:"n"`
+	H   string `json:"h"`
+	Ok  bool   `json:"ok"`  // the driver could decode the stored file completely
+	Dts int    `json:"dts"` // decode time of its first fragment
+	Dur int    `json:"dur"` // sum of the sample durations of all its fragments
+	Fr  int    `json:"fr"`  // fragments
 }
 
-func listTrack(dir, ext string) []fileEnt {
+func (c *childState) listTrack(track, dir, ext string) []fileEnt {
 	res := []fileEnt{}
 	ents, err := os.ReadDir(dir)
 	if err != nil {
@@ -171,7 +180,9 @@ func listTrack(dir, ext string) []fileEnt {
 		if err != nil {
 			continue
 		}
-		res = append(res, fileEnt{N: n, H: digest(data)})
+		h := digest(data)
+		d := c.lib.decodeStored(track, data, c.dec, h)
+		res = append(res, fileEnt{N: n, H: h, Ok: d.ok, Dts: int(d.dts), Dur: int(d.dur), Fr: d.frags})
 	}
 	return res
 }
@@ -247,6 +258,7 @@ type childState struct {
 	lib  *segLib
 	tmp  string
 	part string
+	dec  map[string]decoded // decoded stored files by kind + digest
 	pl   *poller
 }
 
@@ -270,7 +282,7 @@ func childMain(lib *segLib, batchFile, part string, from int, tmp string) error 
 		return err
 	}
 	installHook()
-	c := &childState{w: w, lib: lib, tmp: tmp, part: part, pl: &poller{done: make(chan struct{})}}
+	c := &childState{w: w, lib: lib, tmp: tmp, part: part, dec: map[string]decoded{}, pl: &poller{done: make(chan struct{})}}
 	go c.pl.run()
 	for hi := from; hi < len(batch); hi++ {
 		abort := c.runHistory(hi, &batch[hi])
@@ -375,18 +387,63 @@ func (c *childState) runHistory(hi int, h *history) (abort bool) {
 		hookH, hookI = hi, i
 		hookMu.Unlock()
 		var data []byte
+		broken, fullLen := false, 0
 		var name, kind, dig string
 		var dts, dur int64
 		if u.N == 0 {
 			data, name, kind = c.lib.initSeg(u.T), "init", "init"
 			dig = digest(data)
 		} else {
-			b := c.lib.media(u.T, u.N)
+			nf := u.F
+			if nf < 1 {
+				nf = 1
+			}
+			b := c.lib.media(u.T, u.N, nf)
 			data, name, kind, dts, dur, dig = b.data, strconv.Itoa(u.N), "media", b.dts, b.dur, b.h
+			if u.A != 0 {
+				// an upload that breaks inside a box: the body is a proper prefix of the segment
+				cp := cutPoints(b.data)
+				pts := cp.cleanEarly
+				broken = u.K%2 == 1
+				switch {
+				case u.A == 2 && broken && len(cp.brokenLate) > 0:
+					pts = cp.brokenLate
+				case u.A == 2 && len(cp.cleanLate) > 0:
+					pts = cp.cleanLate
+				case broken:
+					pts = cp.brokenEarly
+				}
+				fullLen = len(b.data)
+				data = b.data[:pts[(u.K/2)%len(pts)]]
+				dig = digest(data)
+				// should the receiver accept it (200), "the uploaded content" is this prefix as far as it can be decoded
+				d := c.lib.decodeStored(u.T, data, c.dec, dig)
+				dts, dur = -1, -1
+				if d.ok {
+					dts, dur = d.dts, d.dur
+				}
+			}
+		}
+		// nothing of an earlier upload may be mistaken for an event of this one
+	drain:
+		for {
+			select {
+			case <-procCh:
+			default:
+				break drain
+			}
 		}
 		url := fmt.Sprintf("/upload/%s/%s/%s%s", chName, u.T, name, c.lib.ext(u.T))
-		req := httptest.NewRequest(http.MethodPut, url, bytes.NewReader(data))
-		req.Header.Set("Content-Length", strconv.Itoa(len(data)))
+		var body io.Reader = bytes.NewReader(data)
+		clen := len(data)
+		if broken {
+			// the connection breaks: the declared length is that of the whole segment, the reader fails after the prefix
+			body = io.MultiReader(bytes.NewReader(data), failReader{})
+			clen = fullLen
+		}
+		req := httptest.NewRequest(http.MethodPut, url, body)
+		req.ContentLength = int64(clen)
+		req.Header.Set("Content-Length", strconv.Itoa(clen))
 		rec := httptest.NewRecorder()
 		answered := make(chan struct{})
 		c.pl.active.Store(true)
@@ -420,6 +477,18 @@ func (c *childState) runHistory(hi int, h *history) (abort bool) {
 					break wait
 				}
 			}
+		} else if kind == "media" && status > 0 {
+			// refused: the handler may have queued records of the fragments it had accepted before the body broke;
+			// observe only after the channel goroutine has been idle for a while
+		idle:
+			for {
+				select {
+				case <-procCh:
+					nproc++
+				case <-time.After(3 * time.Millisecond):
+					break idle
+				}
+			}
 		}
 		c.pl.active.Store(false)
 		if hk["have"] == true {
@@ -428,7 +497,7 @@ func (c *childState) runHistory(hi int, h *history) (abort bool) {
 		// observation
 		files := map[string]any{}
 		for _, t := range h.Tracks {
-			files[t] = listTrack(filepath.Join(storage, chName, t), c.lib.ext(t))
+			files[t] = c.listTrack(t, filepath.Join(storage, chName, t), c.lib.ext(t))
 		}
 		mo := map[string]any{"state": "absent", "ok": false, "as": []asObs{}}
 		var st syscall.Stat_t
@@ -451,7 +520,7 @@ func (c *childState) runHistory(hi int, h *history) (abort bool) {
 			}
 		}
 		c.emit(tr.E{"ev": "up", "i": i, "track": u.T, "kind": kind, "n": u.N, "status": status, "dts": dts, "dur": dur, "h": dig,
-			"processed": processed, "nproc": nproc, "files": files, "mpd": mo, "hook": hk})
+			"cut": u.A, "broken": broken, "frags": u.F, "len": len(data), "processed": processed, "nproc": nproc, "files": files, "mpd": mo, "hook": hk})
 		if status < 0 || (status == http.StatusOK && kind == "media" && !processed) {
 			crashFree = false
 			break
